@@ -48,6 +48,7 @@ const (
 )
 
 type addrDesc struct {
+	priv  string      // non-empty: the address lies inside this own (non-escaping) variable
 	kind  addrKind
 	ref   string      // ref term
 	heap  *heapInfo   // aHeapField / aDeref / aGlobal
@@ -65,6 +66,7 @@ type loopInfo struct {
 	backs   []*ssa.BasicBlock // sources of back edges
 	entries []*ssa.BasicBlock // sources of entry edges
 	modHeap map[string]bool
+	localMods map[*ssa.Alloc]bool // own variables (allocated before the loop) stored to in the loop
 	con     *LoopContract
 	hdrHeap heapState // heap state at header (after havoc)
 	hdrPhis map[*ssa.Phi]Term
@@ -114,6 +116,7 @@ type fnEnc struct {
 	inlPrefix string
 	inlRets   *[]inlRet
 	nonEsc    map[*ssa.Function][]*ssa.Alloc
+	structParts map[string][]string // v.name -> components of the (mk.S ...) it was defined as
 }
 
 func (e *fnEnc) fresh(prefix, sort string) string {
@@ -316,6 +319,17 @@ func (e *fnEnc) set(v ssa.Value, t Term) {
 func (e *fnEnc) define(v ssa.Value, t Term) Term {
 	name := e.fresh("v."+v.Name(), t.Sort)
 	e.assert(fmt.Sprintf("(= %s %s)", name, t.S))
+	if si := e.U.structs[t.Sort]; si != nil && strings.HasPrefix(t.S, "("+si.ctor()+" ") {
+		// a struct value spelled out as (mk.S c1 ... cn): remember the components so
+		// that a later field extraction is the component, not a selector the
+		// solver has to simplify
+		if parts := splitTopLevel(t.S[len(si.ctor())+2 : len(t.S)-1]); len(parts) == len(si.Fields) {
+			if e.structParts == nil {
+				e.structParts = map[string][]string{}
+			}
+			e.structParts[name] = parts
+		}
+	}
 	nt := Term{name, t.Sort, v.Type()}
 	e.val[v] = []Term{nt}
 	return nt
@@ -383,7 +397,8 @@ func (e *fnEnc) findLoops() {
 		if e.con != nil {
 			li.con = e.con.Loops[li.ordinal]
 		}
-		// modified heaps
+		// modified heaps (stores into the activation's own variables hit their
+		// private heaps only: addrKeys is privatisation-aware)
 		for b := range li.blocks {
 			for _, in := range b.Instrs {
 				for _, k := range e.writesOf(in) {
@@ -471,6 +486,12 @@ func (e *fnEnc) writesOf(in ssa.Instruction) []string {
 // addrKeys: heap keys a store through addr may touch (syntactic).
 func (e *fnEnc) addrKeys(a ssa.Value) []string {
 	U := e.U
+	if al, ok := rootOf(a).(*ssa.Alloc); ok && U.priv == "" {
+		if id := privID(al); id != "" {
+			U.priv = id
+			defer func() { U.priv = "" }()
+		}
+	}
 	switch a := a.(type) {
 	case *ssa.FieldAddr:
 		pt := a.X.Type().Underlying().(*types.Pointer).Elem()
@@ -1228,4 +1249,68 @@ func (e *fnEnc) frozenAllocs(li *loopInfo) []*ssa.Alloc {
 		}
 	}
 	return out
+}
+
+// splitTopLevel splits a space-separated list of s-expressions.
+func splitTopLevel(s string) []string {
+	var out []string
+	depth, start := 0, -1
+	for i := 0; i < len(s); i++ {
+		c := s[i]
+		switch {
+		case c == '(':
+			if depth == 0 && start < 0 {
+				start = i
+			}
+			depth++
+		case c == ')':
+			depth--
+			if depth == 0 {
+				out = append(out, s[start:i+1])
+				start = -1
+			}
+		case c == ' ' || c == '\n' || c == '\t':
+			if depth == 0 && start >= 0 {
+				out = append(out, s[start:i])
+				start = -1
+			}
+		default:
+			if depth == 0 && start < 0 {
+				start = i
+			}
+		}
+	}
+	if start >= 0 {
+		out = append(out, s[start:])
+	}
+	return out
+}
+
+// privID names the private heaps of one of the activation's own variables:
+// an Alloc (not an array) whose address is only used to load, store and
+// address fields. "" = the variable lives in the shared heaps.
+func privID(al *ssa.Alloc) string {
+	if _, isArr := al.Type().Underlying().(*types.Pointer).Elem().Underlying().(*types.Array); isArr {
+		return ""
+	}
+	if !addressStaysLocal(al, nil) {
+		return ""
+	}
+	fn := al.Parent()
+	return sanitizeSym(funcKey(fn)) + "." + al.Name()
+}
+
+func sanitizeSym(s string) string {
+	return strings.NewReplacer("$", "S", "*", "p", "(", "", ")", "", " ", "", "<", "_", ">", "_", "&", "_", ",", "_").Replace(s)
+}
+
+// inPriv runs f with the private heaps of d's variable selected.
+func (e *fnEnc) inPriv(d *addrDesc, f func()) {
+	if d == nil || d.priv == "" || e.U.priv != "" {
+		f()
+		return
+	}
+	e.U.priv = d.priv
+	defer func() { e.U.priv = "" }()
+	f()
 }
